@@ -157,7 +157,7 @@ pub fn main(args: &[String]) -> i32 {
         });
         match r {
             Ok(v) => writeln!(out, "{}", v).unwrap(),
-            Err(p) => panics.push(json!({"id": sc.id, "what": panic_key(&p)})),
+            Err(p) => panics.push(json!({"id": sc.id, "what": panic_key(&p), "full": p.chars().take(600).collect::<String>()})),
         }
     }
     out.flush().unwrap();
